@@ -168,7 +168,11 @@ ERRNO_TABLE = {
     ("procfs::verify_is_procfs", EXDEV): "RESOLVE_NO_XDEV analogue for the fstype check",
     ("resolvers::procfs::opath_resolve", EXDEV): "'..' in the restricted procfs walk (RESOLVE_BENEATH analogue)",
     ("resolvers::procfs::opath_resolve", ELOOP): "NO_SYMLINKS / budget / absolute (magic) link: RESOLVE_NO_MAGICLINKS returns ELOOP",
+    ("root::RootRef::create_file", 21): "creating open of a final '..': the kernel returns EISDIR (open_last_lookups: last_type != LAST_NORM with O_CREAT); "
+                                        "synthesised because under O_PATH the kernel would ignore O_CREAT and open '..' (F16)",
 }
+# rows that describe one admissible repair among several: present -> must match the table, absent -> nothing to say
+OPTIONAL_ROWS = {("root::RootRef::create_file", 21)}
 
 
 def r3_synthesised_errnos(ctx):
@@ -193,7 +197,7 @@ def r3_synthesised_errnos(ctx):
                 else:
                     out.append(violated("C04.R3", key, t.where(), "emulation synthesises errno %s in %s, which has no row in the kernel-behaviour table" % (e, fk)))
     for (fk, e) in ERRNO_TABLE:
-        if "%s:errno:%s" % (fk, e) not in seen:
+        if "%s:errno:%s" % (fk, e) not in seen and (fk, e) not in OPTIONAL_ROWS:
             out.append(violated("C04.R3", "%s:errno:%s" % (fk, e), "", "expected synthesised errno %s in %s is gone (the emulation no longer reproduces this kernel result)" % (e, fk)))
     return out
 
